@@ -259,7 +259,11 @@ impl AssociatedFile for AnnotationDataSet {
 
     /// Set the filename for stand-off file specified using @include (if any)
     fn set_filename(&mut self, filename: &str) -> &mut Self {
-        self.filename = Some(filename.into());
+        if self.filename.as_ref().map(|s| s.as_str()) != Some(filename) {
+            self.filename = Some(filename.into());
+            //the stand-off file under the new name still has to be written
+            self.mark_changed();
+        }
         self
     }
 }
